@@ -73,7 +73,7 @@ def gen_case(prng: Prng, tier: str, i: int) -> dict:
         k=prng.randint(2, 3) if tier == "quick" else prng.randint(2, 4),
         chunksize=prng.choice([None, 7, 16]),
         variant=prng.choice(REBUILD_VARIANTS) if workload == "rebuild" else (
-            prng.choice(["apply", "apply", "divide", "random"]) if workload in ("create", "overwrite") else (
+            prng.choice(["apply", "buffered", "divide", "random"]) if workload in ("create", "overwrite") else (
                 prng.choice(["corrdata", "histdata"]) if workload == "corrdata_files" else None)),
         prior=prng.choice(["plain", "with_trees", "with_trees"]) if workload == "overwrite" else (
             prng.choice(["none", "older"]) if workload in ("corrfunc_file", "corrdata_files") else None),
@@ -168,6 +168,17 @@ def _make_catalog(path: str, rec: dict, centers: np.ndarray, chunksize=None, ove
             path, wl.make_dataframe(rec, ids.astype("i8")), chunksize=chunksize, overwrite=overwrite, max_workers=1,
             **wl.column_kwargs(rec, patch_name=True),
         )
+    if variant == "buffered":
+        # the public write_patches with a finite writer buffer (Catalog.from_* pins -1)
+        import yaw.catalog.catalog as ycat
+        from yaw.catalog.readers import DataFrameReader
+
+        reader = DataFrameReader(wl.make_dataframe(rec), chunksize=chunksize, **wl.column_kwargs(rec))
+        ycat.write_patches(
+            path, reader, yaw.AngularCoordinates(centers), overwrite=overwrite, progress=False,
+            max_workers=1, buffersize=int(case["data_seed"]) % 9 + 3,
+        )
+        return yaw.Catalog(path, max_workers=1)
     if variant == "random":
         return yaw.Catalog.from_random(
             path, _random_generator(case), len(rec["ra"]), patch_centers=yaw.AngularCoordinates(centers),
